@@ -155,7 +155,7 @@ def gen_layout(rng, dim=None, n=None, spacing=5.0, max_radius=None) -> dict:
     dim = dim or rng.choice([2, 2, 3])
     n = n or rng.choice([1, 2, 3, 5, 9, 16])
     # points of a jittered lattice, distinct after rounding to 6 decimals
-    pts = set()
+    pts = {}
     side = max(2, int(math.ceil(n ** (1 / dim))) + 1)
     style = rng.choice(["grid", "jitter", "fine"])
     while len(pts) < n:
@@ -168,8 +168,9 @@ def gen_layout(rng, dim=None, n=None, spacing=5.0, max_radius=None) -> dict:
             p = tuple(spacing * i + rng.randrange(-3, 4) * 1e-7 for i in idx)  # below/at COORD_PRECISION
         if max_radius is not None and math.sqrt(sum(c * c for c in p)) > max_radius:
             continue
-        pts.add(tuple(round(c, 6) for c in p) if style != "fine" else p)
-    coords = [list(p) for p in pts]
+        # traps must stay distinct at the library's coordinate precision (near-ties are C19's business)
+        pts.setdefault(tuple(round(c, 6) + 0.0 for c in p), tuple(round(c, 6) for c in p) if style != "fine" else p)
+    coords = [list(p) for p in pts.values()]
     rng.shuffle(coords)
     if rng.random() < 0.2:
         coords = [[int(c) if float(int(c)) == c else c for c in p] for p in coords]
@@ -369,7 +370,7 @@ def _gen_amp(rng):
 def gen_state(rng, n=None, normalised=False) -> dict:
     eig = rng.choice([["r", "g"], ["g", "h"], ["u", "d"], ["r", "g", "h"], ["r", "g", "x"], ["0", "1"]])
     n = n or rng.choice([1, 2, 3])
-    k = rng.choice([1, 2, 3])
+    k = min(rng.choice([1, 2, 3]), len(eig) ** n)
     keys = set()
     while len(keys) < k:
         keys.add("".join(rng.choice(eig) for _ in range(n)))
@@ -434,7 +435,7 @@ def _fix_state_eig(st, rng):
     eig = st["eigenstates"]
     n = len(next(iter(st["amplitudes"])))
     keys = set()
-    while len(keys) < len(st["amplitudes"]):
+    while len(keys) < min(len(st["amplitudes"]), len(eig) ** n):
         keys.add("".join(rng.choice(eig) for _ in range(n)))
     a = 1 / math.sqrt(len(keys))
     return dict(eigenstates=eig, amplitudes={k: a for k in sorted(keys)})
@@ -578,6 +579,11 @@ def build_noise(s):
 def build_device(s):
     from pulser.devices import Device, VirtualDevice
 
+    if "builtin" in s:
+        import pulser.devices as pd
+
+        return getattr(pd, s["builtin"])
+
     kw = dict(s["kw"])
     kw["channel_objects"] = tuple(build_channel(c) for c in s["channels"])
     if s["channel_ids"] is not None:
@@ -714,6 +720,30 @@ def build(family: str, spec):
 _VALIDATORS: dict = {}
 
 
+def install_check_schema_memo() -> None:
+    """`jsonschema.validate` re-validates the (constant, 2000-line) schema against its metaschema on every
+    call (~90 ms for the device schema).  Memoise `check_schema` per schema object: same verdicts, and the
+    library's own `to_abstract_repr` / `from_abstract_repr` stay on their public, validating path."""
+    import jsonschema
+
+    if _VALIDATORS.get("memo"):
+        return
+    for cls in (jsonschema.Draft7Validator, jsonschema.Draft202012Validator, jsonschema.Draft201909Validator,
+                jsonschema.Draft6Validator, jsonschema.Draft4Validator):
+        orig = cls.check_schema.__func__
+        seen: dict = {}
+
+        def check_schema(klass, schema, *a, _orig=orig, _seen=seen, **kw):
+            key = id(schema)
+            if key not in _seen:
+                _orig(klass, schema, *a, **kw)
+                _seen[key] = schema  # keeps the object alive so the id stays unique
+            return None
+
+        cls.check_schema = classmethod(check_schema)
+    _VALIDATORS["memo"] = True
+
+
 def schema_validate(instance, name: str) -> str | None:
     """Validate against /repo's schema files with our own registry. -> error text or None."""
     import jsonschema
@@ -729,7 +759,13 @@ def schema_validate(instance, name: str) -> str | None:
                                                                                "noise")])
     schema = _VALIDATORS["schemas"][name]
     try:
-        jsonschema.validate(instance=instance, schema=schema, registry=_VALIDATORS["registry"])
+        if name not in _VALIDATORS:
+            cls = jsonschema.validators.validator_for(schema)
+            cls.check_schema(schema)
+            _VALIDATORS[name] = cls(schema, registry=_VALIDATORS["registry"])
+        err = jsonschema.exceptions.best_match(_VALIDATORS[name].iter_errors(instance))
+        if err is not None:
+            raise err
     except jsonschema.exceptions.ValidationError as e:
         return str(e.message)[:300]
     except Exception as e:  # noqa: BLE001  (the validator itself crashed on this schema/instance)
@@ -935,7 +971,7 @@ def real_decode(family: str, s: str, spec):
     from pulser.json.abstract_repr import deserializer as de
 
     if family == "device":
-        return (pulser.devices.VirtualDevice if spec["virtual"] else pulser.devices.Device).from_abstract_repr(s)
+        return (pulser.devices.VirtualDevice if spec.get("virtual") else pulser.devices.Device).from_abstract_repr(s)
     if family == "layout":
         return pulser.register.register_layout.RegisterLayout.from_abstract_repr(s)
     if family == "noise":
@@ -1016,7 +1052,7 @@ def roundtrip(family: str, spec, obj):
 
 
 def _key(family, spec, clause, field=None, exc=None, obj=None, case=None) -> dict:
-    cls = {"channel": lambda: spec["cls"], "device": lambda: "VirtualDevice" if spec["virtual"] else "Device",
+    cls = {"channel": lambda: spec["cls"], "device": lambda: "VirtualDevice" if spec.get("virtual") else "Device",
            "layout": lambda: "RegisterLayout", "noise": lambda: "NoiseModel", "simconfig": lambda: "SimConfig",
            "register": lambda: "Register3D" if spec["dim"] == 3 else "Register", "detmap": lambda: "DetuningMap",
            "config": lambda: spec["cls"], "results": lambda: "Results"}[family]()
@@ -1036,7 +1072,7 @@ def construct_case(family, spec, exc_name) -> str | None:
     if family == "channel":
         chans = [spec]
     elif family == "device":
-        chans = list(spec["channels"])
+        chans = list(spec.get("channels", []))
     if exc_name == "TypeError" and any(
             c["cls"] != "DMM" and c["kw"].get("max_amp") is None and c["kw"].get("max_abs_detuning") is not None
             for c in chans):
@@ -1121,9 +1157,12 @@ def monitor_roundtrip(family: str, spec, obj, dec) -> list[Fail]:
             try:
                 eq = bool(obj == dec)
             except Exception as e:  # noqa: BLE001
-                eq = False
-                fails.append(Fail("roundtrip-eq", _key(family, spec, "roundtrip-eq", exc=type(e).__name__),
-                                  f"== raised {type(e).__name__}"))
+                if family == "results" and any(x["kind"] == "ndarray" for x in spec["entries"]):
+                    eq = True  # dataclass == over numpy arrays is ill-defined; the field-wise view decides
+                else:
+                    eq = False
+                    fails.append(Fail("roundtrip-eq", _key(family, spec, "roundtrip-eq", exc=type(e).__name__),
+                                      f"== raised {type(e).__name__}"))
             if not eq and not fails:
                 fails.append(Fail("roundtrip-eq", _key(family, spec, "roundtrip-eq"),
                                   "decoded object != original although every compared field is equal"))
